@@ -11,6 +11,10 @@ pub open spec fn strong_both(o: Own, c: int) -> bool { !o.none && !o.mixed && o.
 pub open spec fn no_strong(o: Own) -> bool { !o.s_tx && !o.s_force }
 pub open spec fn weak_both(o: Own, c: int) -> bool { !o.none && !o.mixed && o.chan == c && o.w_tx && o.w_force && no_strong(o) }
 pub trait OwnView { spec fn own(&self) -> Own; }
+// the view of an arbitrary captured value: the view of its type if it has one; client values (messages, user closures) own nothing of hannibal's channels (axioms per unit)
+pub uninterp spec fn own_of<T>(t: &T) -> Own;
+pub broadcast axiom fn own_of_view<T: OwnView>(t: &T) ensures #[trigger] own_of(t) == t.own();
+impl<T: OwnView> OwnView for &T { open spec fn own(&self) -> Own { (**self).own() } }
 impl OwnView for u64 { open spec fn own(&self) -> Own { own_none() } }
 impl OwnView for bool { open spec fn own(&self) -> Own { own_none() } }
 impl<T: OwnView> OwnView for Option<T> { open spec fn own(&self) -> Own { match self { Some(t) => t.own(), None => own_none() } } }
@@ -42,3 +46,16 @@ impl<A> OwnView for WeakForceTx<A> { open spec fn own(&self) -> Own { Own { none
 #[verifier::external_body] #[verifier::accept_recursive_types(T)] pub struct BoxedFn<T> { p: core::marker::PhantomData<T> }
 impl<T> BoxedFn<T> { pub uninterp spec fn captured(&self) -> Own; pub uninterp spec fn code(&self) -> int; }
 impl<T> OwnView for BoxedFn<T> { open spec fn own(&self) -> Own { self.captured() } }
+
+// Box::new(e) (rule T1): the result type is inferred from the expected type
+pub trait BoxNew<T>: Sized { spec fn boxed_ok(t: &T, r: &Self) -> bool; fn box_new_(t: T) -> (r: Self) ensures Self::boxed_ok(&t, &r); }
+pub fn box_new<B: BoxNew<T>, T>(t: T) -> (r: B) ensures B::boxed_ok(&t, &r) { B::box_new_(t) }
+// a closure literal passed by value (rule L3): what it captured and which literal it is
+#[verifier::external_body] pub struct ClosureObj { x: u8 }
+impl ClosureObj { pub uninterp spec fn captured(&self) -> Own; pub uninterp spec fn code(&self) -> int; pub uninterp spec fn cap0(&self) -> int; }
+impl OwnView for ClosureObj { open spec fn own(&self) -> Own { self.captured() } }
+impl<T> BoxedFn<T> { pub uninterp spec fn cap0(&self) -> int; }
+impl<T> BoxNew<ClosureObj> for BoxedFn<T> {
+    open spec fn boxed_ok(t: &ClosureObj, r: &Self) -> bool { r.captured() == t.captured() && r.code() == t.code() && r.cap0() == t.cap0() }
+    #[verifier::external_body] fn box_new_(t: ClosureObj) -> (r: Self) { unimplemented!() }
+}
